@@ -35,6 +35,11 @@ type PtrV struct {
 	N    int64      // PArr length
 }
 
+// UnsafeV: an unsafe.Pointer (or a typed pointer made from one). Nothing is known about where it points: a load through
+// it yields an arbitrary value, a store through it is only accepted in a function with an `unsafe-abstract` directive
+// and then makes the named slice's elements arbitrary (DESIGN 11: unsafe code abstracted).
+type UnsafeV struct{}
+
 type SliceV struct {
 	Arr, Off, Len, Cap *Term
 	Elem               types.Type
